@@ -11,6 +11,7 @@ package main
 import (
 	"crypto/rand"
 	"crypto/sha1"
+	"encoding/pem"
 	"encoding/base64"
 	"encoding/json"
 	"fmt"
@@ -31,6 +32,7 @@ import (
 	"github.com/alicebob/miniredis/v2"
 	"github.com/oauth2-proxy/oauth2-proxy/v7/pkg/apis/options"
 	"github.com/oauth2-proxy/oauth2-proxy/v7/pkg/logger"
+	"github.com/oauth2-proxy/oauth2-proxy/v7/pkg/util"
 	"github.com/oauth2-proxy/oauth2-proxy/v7/pkg/validation"
 )
 
@@ -367,6 +369,20 @@ func vpNewWorld(cfg *vpCfg) (*vpWorld, error) {
 	}
 	if cfg.RedirectURL != "" {
 		o.RawRedirectURL = cfg.RedirectURL
+	}
+
+	if cfg.ForceHTTPS {
+		// force-https needs a TLS listener address; a throw-away certificate and an ephemeral port
+		certDER, keyDER, err := util.GenerateCert("127.0.0.1")
+		if err != nil {
+			return nil, err
+		}
+		cp, kp := filepath.Join(tmp, "tls.crt"), filepath.Join(tmp, "tls.key")
+		os.WriteFile(cp, pem.EncodeToMemory(&pem.Block{Type: "CERTIFICATE", Bytes: certDER}), 0o600)
+		os.WriteFile(kp, pem.EncodeToMemory(&pem.Block{Type: "PRIVATE KEY", Bytes: keyDER}), 0o600)
+		lo.LegacyServer.TLSCertFile, lo.LegacyServer.TLSKeyFile = cp, kp
+		lo.LegacyServer.HTTPSAddress = "127.0.0.1:0"
+		o.ForceHTTPS = true
 	}
 
 	// session store
